@@ -224,6 +224,7 @@ def explore(prop, verif_seed, tier, runs, time_cap_s, chunk, watchdog):
     nxt = 0
     pending = {}
     stop_submitting = False
+    known_sigs = set(known_open(prop.ID))
     with cf.ProcessPoolExecutor(max_workers=NWORKERS, mp_context=ctx) as ex:
         try:
             while True:
@@ -260,8 +261,10 @@ def explore(prop, verif_seed, tier, runs, time_cap_s, chunk, watchdog):
                     total["viol"].extend(agg["viol"])
                     total["harness"].extend(agg["harness"])
                     total["samples"].extend(agg["samples"])
-                    # stop early once enough distinct violation classes were seen
-                    if len({v["sig"] for v in total["viol"]}) >= 6 or len(total["viol"]) > 400:
+                    # stop early once enough distinct violation classes were seen (listed known findings do not count:
+                    # they recur in every batch and must not cut the exploration short)
+                    fresh = [v for v in total["viol"] if v["sig"] not in known_sigs]
+                    if len({v["sig"] for v in fresh}) >= 6 or len(fresh) > 400:
                         stop_submitting = True
         except cf.process.BrokenProcessPool as e:
             total["harness"].append({"index": -1, "error": "worker died (watchdog?): " + repr(e)})
